@@ -66,6 +66,39 @@ def retouched_ws_only(run, idx, path, lineno):
     return False
 
 
+def reindented_below_insert(run, idx, path, lineno):
+    """line `lineno` is an AI line whose exact text its session never reported — somebody else changed
+    only its whitespace before it was committed — and the line directly above it is a new line of a
+    different author: the token-level diff of that interval pairs the session's tokens with the
+    inserted line and the re-indented line goes to the inserter (known finding)."""
+    files = run.commits[idx][1]
+    parent = run.commits[idx - 1][1]
+    try:
+        l = files[path][lineno - 1]
+        above = files[path][lineno - 2] if lineno >= 2 else None
+    except (KeyError, IndexError):
+        return False
+    if l[1] is None or above is None:
+        return False
+    wrote = run.wrote.get(l[1], set())
+    ws_retouched = l[0] not in wrote and any("".join(t.split()) == "".join(l[0].split()) for t in wrote)
+    above_new = above[1] != l[1] and all(pl[2] != above[2] for pl in parent.get(path, []))
+    return ws_retouched and above_new
+
+
+def reindented_below_insert_any(run, idx, path, lineno):
+    """the same, at whichever commit introduced the line (blame at HEAD sees the whole history)"""
+    try:
+        uid = run.commits[idx][1][path][lineno - 1][2]
+    except (KeyError, IndexError):
+        return False
+    for k in range(1, idx + 1):
+        for pos, l in enumerate(run.commits[k][1].get(path, []), 1):
+            if l[2] == uid and reindented_below_insert(run, k, path, pos):
+                return True
+    return False
+
+
 def last_line_no_newline(run, idx, path, lineno):
     """line `lineno` is the last line of a file kept without a final newline: deleting the lines
     below it changes its line ending, and the deleting session's deletion marker wins the line"""
@@ -117,6 +150,8 @@ def check_commit(run, idx, failures):
             sig = "note-misses-ai-line" if missing and not extra else ("note-lists-non-ai-line" if extra and not missing else "note-wrong-lines")
             if missing and not extra and all(retouched_ws_only(run, idx, p, l) for l in missing):
                 sig = "ws-only-retouch-of-committed-ai-line"
+            elif missing and not extra and all(reindented_below_insert(run, idx, p, l) for l in missing):
+                sig = "uncommitted-ai-line-reindented-below-a-line-inserted-in-the-same-interval"
             elif all(last_line_no_newline(run, idx, p, l) for l in list(missing) + list(extra)):
                 sig = "last-line-without-newline-credited-to-session-that-deleted-below"
             failures.append((sig, {"sha": sha, "path": p, "missing": missing, "extra": extra, "line_texts": texts,
@@ -139,6 +174,8 @@ def check_commit(run, idx, failures):
             sig = "blame-misses-ai-line" if missing and not extra else ("blame-reports-non-ai-line" if extra and not missing else "blame-wrong-lines")
             if missing and not extra and all(retouched_ws_only_any(run, idx, p, l) for l in missing):
                 sig = "ws-only-retouch-of-committed-ai-line"
+            elif missing and not extra and all(reindented_below_insert_any(run, idx, p, l) for l in missing):
+                sig = "uncommitted-ai-line-reindented-below-a-line-inserted-in-the-same-interval"
             elif all(last_line_no_newline(run, idx, p, l) for l in list(missing) + list(extra)):
                 sig = "last-line-without-newline-credited-to-session-that-deleted-below"
             failures.append((sig, {"sha": sha, "path": p, "missing": missing, "extra": extra}))
@@ -166,6 +203,8 @@ def _run_scenario(sc):
             observed = [S.observed_note_lines(run.repo.note(sha)) for sha, _ in run.commits[1:]]
             sc["_observed"] = observed
             sc["_commit_ok"] = list(run.commit_ok)
+            sc["_idealised"] = sorted({d.get("path") for sig, d in failures
+                                       if sig == "uncommitted-ai-line-reindented-below-a-line-inserted-in-the-same-interval"})
     except Exception as ex:
         failures.append(("runner-exception", {"error": repr(ex), "trace": traceback.format_exc()[-1500:]}))
         ncommits = 0
@@ -184,7 +223,7 @@ def phase_e2e(res, seeds, threads=16):
             continue
         # the content-identity model has no line endings: files kept without a final newline are left
         # to the oracle (known finding "last line without newline …")
-        skip = [p for p, o in (sc.get("file_opts") or {}).items() if not o.get("final_newline", True)]
+        skip = [p for p, o in (sc.get("file_opts") or {}).items() if not o.get("final_newline", True)] + sc.pop("_idealised", [])
         n, bad = S.sys_compare(sc, sc.pop("_observed"), C.run_driver, skip_paths=skip, commit_ok=sc.pop("_commit_ok", None))
         ncmp += n; nbad += len(bad)
         if bad and first is None:
